@@ -1023,6 +1023,11 @@ def run_cases(ctx, cases: List[dict], monitor, workers=("asyncio", "trio"), tag:
                 # outside the model's runtime assumption (blocked putters keep their place): judged by the monitors only
                 ctx.count("not_replayed", "put_overtaken_" + worker)
                 continue
+            if sc["proto"] == "h2" and any(p[1] == "disconnect" for p in an["blocked_puts"]):
+                # F08 on HTTP/2: `handle(Closed)` is stuck in its loop before the stream buffers are released, so other
+                # streams' senders hang in drain(); the model does not follow the connection beyond that known defect
+                ctx.count("not_replayed", "f08_h2_" + worker)
+                continue
             pending.append((rq, case, worker, an))
             if len(pending) >= 40:
                 flush()
